@@ -91,6 +91,19 @@ def episodes(tier, seed):
             idx = len(L) - 1 - len(cont)
             L = L[:idx] + ["flush %s" % X] + [x.format(X=X, T=target) for x in l2] + ["deliver %s 1" % X] + L[idx:]
         E.append(dict(id="G%d" % i, cfg=cfg["name"], k=k, target=target, act=act[0], lines=L[:-1]))
+    # directed: every handshake message of every flight once more (a repeated message must be refused - and must not leave
+    # allocations of the first copy behind), for every configuration, stop point and receiving role
+    i = n
+    for cfg in C:
+        dtls = cfg["name"].startswith("D")
+        for k in range(0, 6):
+            for target in ("c0", "s0"):
+                for idx in range(0, 6):
+                    act = ("hsdup%d" % idx, ["hsedit {X} dup %d" % idx])
+                    cont = CONTS[1] if idx % 2 else CONTS[3]
+                    L = sessgen.episode_lines(cfg, k, target, act, ("c", cont), "G%d" % i, dtls)
+                    E.append(dict(id="G%d" % i, cfg=cfg["name"], k=k, target=target, act=act[0], lines=L[:-1]))
+                    i += 1
     return E
 
 def render(eps, start):
